@@ -88,6 +88,48 @@ type Outcome struct {
 	SimTime    time.Duration     // simulated time covered
 	Log        []string          // canonical event log (determinism unit)
 	Extra      map[string]string // free-form facts for samples
+	KnownHits  map[string]string // known-finding signatures hit by members of a family (signature -> observed)
+}
+
+var (
+	knownMu   sync.Mutex
+	knownSigs = map[string]bool{}
+)
+
+// IsKnown reports whether a violation signature is listed as a known finding for the running check.
+func IsKnown(sig string) bool {
+	knownMu.Lock()
+	defer knownMu.Unlock()
+	return knownSigs[sig]
+}
+
+// Absorb merges the outcome of one member of a family into o. A member violation that is a known
+// finding is recorded and does not end the family; any other violation becomes o.V.
+func (o *Outcome) Absorb(sub *Outcome) {
+	for k, v := range sub.Counters {
+		o.Counters[k] += v
+	}
+	o.States = append(o.States, sub.States...)
+	o.Log = append(o.Log, sub.Log...)
+	o.SimTime += sub.SimTime
+	if sub.V != nil {
+		if IsKnown(sub.V.Sig) {
+			if o.KnownHits == nil {
+				o.KnownHits = map[string]string{}
+			}
+			if _, ok := o.KnownHits[sub.V.Sig]; !ok {
+				o.KnownHits[sub.V.Sig] = sub.V.Observed
+			}
+		} else if o.V == nil {
+			o.V = sub.V
+		}
+	}
+	for k, v := range sub.KnownHits {
+		if o.KnownHits == nil {
+			o.KnownHits = map[string]string{}
+		}
+		o.KnownHits[k] = v
+	}
 }
 
 func NewOutcome() *Outcome {
@@ -362,6 +404,11 @@ func Main(t *testing.T, c *Check) {
 	seed := envInt("VERIF_SEED", 1)
 	root := verifRoot()
 	known := loadKnown(c.ID)
+	knownMu.Lock()
+	for sig := range known {
+		knownSigs[sig] = true
+	}
+	knownMu.Unlock()
 
 	if rp := os.Getenv("VERIF_REPLAY"); rp != "" {
 		b, err := os.ReadFile(rp)
@@ -426,6 +473,11 @@ func Main(t *testing.T, c *Check) {
 				ws.absorb(s, o)
 				if dump != "" {
 					dumps[w] = append(dumps[w], fmt.Sprintf("%s %s %s", origin, s.Hash(), o.LogHash()))
+				}
+				for sig, obs := range o.KnownHits {
+					if _, seen := ws.known[sig]; !seen {
+						ws.known[sig] = obs
+					}
 				}
 				if o.V == nil {
 					return true
